@@ -139,7 +139,7 @@ def jobs(tier, seed):
     from checks import c02
 
     out = []
-    for j in c02.jobs(tier, seed):
+    for j in [j_ for j_ in c02.jobs(tier, seed) if j_["harness"] == "prog"]:
         j = dict(j)
         if tier == "quick" and j["label"].startswith("L3:") and c02.heavy(j["args"]["mnems"], strict=True):
             continue
